@@ -44,6 +44,40 @@ class Agg:
         return n
 
 
+def good_paths(ctx, I, fn=None):
+    """returning paths of I; the obligation that no name is read before it is bound is recorded once per rule and function"""
+    import ast as _ast
+    fn = fn or I.fn
+    allp = I.paths()
+    paths = [p for p in allp if p.status == "return"]
+    memo = ctx.__dict__.setdefault("_c16_unbound", set())
+    assigned = set()
+    for n in _ast.walk(I.fn):
+        if isinstance(n, _ast.Name) and isinstance(n.ctx, _ast.Store):
+            assigned.add(n.id)
+        elif isinstance(n, _ast.arg):
+            assigned.add(n.arg)
+    never, maybe = {}, {}
+    for P in paths:
+        for e in P.events:
+            if e.kind == "unbound":
+                (maybe if e.name in assigned else never).setdefault(e.name, e.node)
+    key = (ctx.rule, I.qual)
+    bad = (ctx.rule, I.qual, tuple(sorted(never)), tuple(sorted(maybe)))
+    if (never or maybe) and bad in memo:
+        return paths
+    memo.add(bad)
+    if never:
+        ctx.fail(f"{I.qual}: no name is read that is never bound (NameError)", list(never.values())[0], sorted(never),
+                 key=f"{ctx.rule}|{I.qual}|unbound {sorted(never)}")
+    elif maybe:
+        ctx.error(f"{I.qual}: a local is read on a path that does not assign it", list(maybe.values())[0], sorted(maybe))
+    elif key not in memo:
+        ctx.ok(f"{I.qual}: every name read on a returning path is bound on that path", fn, None, False)
+    memo.add(key)
+    return paths
+
+
 def params(fn, skip_self=False):
     p = [a.arg for a in fn.args.posonlyargs + fn.args.args]
     return p[1:] if skip_self and p and p[0] in ("self", "cls") else p
@@ -61,6 +95,15 @@ def fact_of(P, term):
     if r is None:
         return None
     return r if pol else (not r)
+
+
+def escapes(P, t):
+    """the object is handed to a call that was not followed (which may have done the work)"""
+    for e in P.calls():
+        if any(P.norm(a) == t for a in e.args) or any(P.norm(v) == t for _, v in e.kws):
+            if e.name not in ("nan_argmax", "nan_argmin", "isinstance", "len"):
+                return True
+    return False
 
 
 def unabs(t):
@@ -112,7 +155,7 @@ def _extrema(ctx, ncol):
     pins = {("attr", ("attr", ("s", mm), "ext"), "shape"): ("tup", ("s", "<rows>"), ("c", ncol))}
     I = Interp(ctx, UTIL, "extrema", kinds={mxc: "list", mnc: "list", cnum: "scalar"}, noinline={"nan_argmax", "nan_argmin"}, pins=pins,
                cond=lambda key, P: True if key[0] == "truth" and key[1][0] == "attr" and key[1][2] == "size" else None)
-    return fn, I, [p for p in I.paths() if p.status == "return"], (cur, mm, mxc, mnc, cnum)
+    return fn, I, good_paths(ctx, I), (cur, mm, mxc, mnc, cnum)
 
 
 def raise_anchor(msg):
@@ -150,7 +193,7 @@ def r1_roles(ctx):
                     es = recs.get(fld, [])
                     key = f"extrema [{arm}]: `.{fld}[:, casenum]` records column {want_col} of the incoming {'abscissa' if fld.endswith('_x') else 'value'} table"
                     if len(es) != 1:
-                        A.req(key, None if not es else False, fn, f"{len(es)} stores into .{fld} on a path with casenum given")
+                        A.req(key, None if (not es and escapes(P, CUR)) else False, fn, f"{len(es)} stores into .{fld} on a path with casenum given")
                         continue
                     e = es[0]
                     v = P.norm(e.value)
@@ -178,7 +221,8 @@ def r1_roles(ctx):
                 if e.kind == "store" and tg == EXT:
                     groups.append(e)
             A.req(f"extrema [{arm}]: a later case updates the stored max column and the stored min column (two compare-and-replace blocks)",
-                  len(groups) == 2, fn, f"{len(groups)} stores into curext.ext", nontrivial=False)
+                  True if len(groups) == 2 else (None if (len(groups) > 2 or escapes(P, CUR)) else False), fn, f"{len(groups)} stores into curext.ext",
+                  nontrivial=False)
             seen_roles = set()
             for gi, e in enumerate(groups):
                 ix, v = P.norm(e.index), P.norm(e.value)
@@ -244,7 +288,7 @@ def r1_roles(ctx):
                       and P.norm(x.index)[0] == "tup" and len(P.norm(x.index)) == 3 and P.norm(x.index)[1] == J]
                 for x, tg in sets:
                     xv = P.norm(x.value)
-                    ok = nox is False and cur_x is True and content_root(xv) == MEXTX
+                    ok = (xv == NONE and cur_x is True) or (nox is False and cur_x is True and content_root(xv) == MEXTX)
                     A.req(f"extrema [{arm}]: an abscissa table is created on a later case only when there was none, from the incoming one", ok, x.node, show(xv))
                     er, _, cert = ext_roots(P, x.value)
                     A.req(f"extrema [{arm}]: an abscissa table created on a later case is a copy of mm.ext_x, not the contributor's array", not er, x.node,
@@ -351,7 +395,7 @@ def _store_maxmin(ctx):
         raise_anchor("_store_maxmin(self, res, mm, j, case)")
     res, mm, j, case = pr[:4]
     I = Interp(ctx, RES, "DR_Results._store_maxmin")
-    paths = [p for p in I.paths() if p.status == "return"]
+    paths = good_paths(ctx, I)
     A = Agg(ctx)
     R, M = ("s", res), ("s", mm)
     want = {"mx": ("ext", 0), "mx_x": ("ext_x", 0), "mn": ("ext", 1), "mn_x": ("ext_x", 1)}
@@ -366,7 +410,7 @@ def _store_maxmin(ctx):
             key = f"_store_maxmin: `.{fld}[:, j]` records column {col} of mm.{src}"
             es = seen.get(fld, [])
             if len(es) != 1:
-                A.req(key, False if es else None, fn, f"{len(es)} stores")
+                A.req(key, None if (not es and escapes(P, R)) else False, fn, f"{len(es)} stores")
                 continue
             e = es[0]
             ok = P.norm(e.index) == ("tup", FULL, ("s", j)) and col_of(P.norm(e.value), ("attr", M, src)) == col
@@ -390,7 +434,7 @@ def _quiet(key, P):
 def _recovery(ctx, q):
     I = Interp(ctx, RES, f"DR_Results.{q}", cond=_quiet, noinline={"_compute_srs", "_init_results_cat", "_store_maxmin", "_init_mxmn"},
                mutators={"extrema": [0]})
-    return ctx.src.func(RES, f"DR_Results.{q}"), [p for p in I.paths() if p.status == "return"]
+    return ctx.src.func(RES, f"DR_Results.{q}"), good_paths(ctx, I)
 
 
 def _frf_minus(ctx):
@@ -427,7 +471,7 @@ def r2_mirror(ctx):
         fn = ctx.src.func(UTIL, q)
         v1, v2 = params(fn)[:2]
         I = Interp(ctx, UTIL, q)
-        paths = [p for p in I.paths() if p.status == "return"]
+        paths = good_paths(ctx, I)
         cmp_ = ">" if q == "nan_argmax" else "<"
         want = I.expect(f"({v2} {cmp_} {v1}) | (np.isnan({v1}) & ~np.isnan({v2}))")
         got = [P.norm(P.ret) for P in paths]
@@ -460,7 +504,7 @@ def r2_mirror(ctx):
     fn = ctx.src.func(UTIL, "nan_absmax")
     v1, v2 = params(fn)[:2]
     I = Interp(ctx, UTIL, "nan_absmax", noinline={"nan_argmax"})
-    paths = [p for p in I.paths() if p.status == "return"]
+    paths = good_paths(ctx, I)
     ok = bool(paths)
     det = None
     for P in paths:
@@ -517,7 +561,7 @@ def _maxmin(ctx):
     fn = ctx.src.func(UTIL, "maxmin")
     resp, x = params(fn)[:2]
     I = Interp(ctx, UTIL, "maxmin")
-    paths = [p for p in I.paths() if p.status == "return"]
+    paths = good_paths(ctx, I)
     A = Agg(ctx)
     A.req("maxmin: a path returns the table", bool(paths), fn, nontrivial=False)
     R, X = ("s", resp), ("s", x)
@@ -525,8 +569,20 @@ def _maxmin(ctx):
         ext, ext_x = P.norm(P.field(P.ret, "ext")), P.norm(P.field(P.ret, "ext_x"))
 
         def cols(t):
-            if t[0] == "call" and t[1] == "np.column_stack" and len(t[2]) == 1 and t[2][0][0] in ("tup", "lst") and len(t[2][0]) == 3:
-                return t[2][0][1], t[2][0][2]
+            """the two columns of a table built from two vectors (several spellings)"""
+            pair = lambda c: (c[2][0][1], c[2][0][2]) if (c[0] == "call" and len(c[2]) >= 1 and c[2][0][0] in ("tup", "lst") and len(c[2][0]) == 3) else None  # noqa
+            if t[0] == "new":
+                t = t[2]
+            if t[0] == "call" and t[1] == "np.column_stack" and len(t[2]) == 1:
+                return pair(t)
+            if t[0] == "call" and t[1] == "np.stack" and (t[2][1:] in ((("c", 1),), (("c", -1),)) or t[3] in ((("axis", ("c", 1)),), (("axis", ("c", -1)),))):
+                return pair(t)
+            if t[0] == "attr" and t[2] == "T" and t[1][0] in ("call", "new"):
+                c = t[1][2] if t[1][0] == "new" else t[1]
+                if c[0] == "call" and c[1] in ("np.vstack", "np.array", "np.row_stack", "np.stack", "np.asarray") and len(c[2]) == 1 and not c[3]:
+                    return pair(c)
+            if t[0] == "idx" and t[1] == ("g", "np.c_") and t[2][0] == "tup" and len(t[2]) == 3:
+                return t[2][1], t[2][2]
             return None
 
         ce, cx = cols(ext), cols(ext_x)
@@ -568,7 +624,7 @@ def r3_envelope(ctx):
         raise_anchor("_compute_srs(self, res, dr, resp, respname, x, j, first, ...)")
     res, j, first = pr[0], pr[5], pr[6]
     I = Interp(ctx, RES, "DR_Results._compute_srs", kinds={j: "scalar", first: "scalar"})
-    paths = [p for p in I.paths() if p.status == "return"]
+    paths = good_paths(ctx, I)
     A = Agg(ctx)
     SRS = ("attr", ("s", res), "srs")
     ENV, PER = ("attr", SRS, "ext"), ("attr", SRS, "srs")
